@@ -4,6 +4,7 @@
   driver calls.  Executable only; no theorem depends on this file.
 -/
 import Pongo.Model.Exec
+import Pongo.Model.Sets
 import Pongo.Gen.LexTables
 import Pongo.Gen.Registry
 
@@ -146,6 +147,25 @@ def runFilter (ts : List String) : String :=
         | _ => "bad-request"
       | _ => "bad-request"
   | [] => "bad-request"
+
+/-- `bans {T|F|C <namehex>}`: a ban/create history; answers the success flags -/
+def runBans (ts : List String) : String :=
+  let rec go : List String → List BanOp → Option (List BanOp)
+    | [], acc => some acc.reverse
+    | k :: n :: rest, acc =>
+      match Bytes.ofHex n with
+      | none => none
+      | some nb =>
+        if k == "T" then go rest (.banTag nb :: acc)
+        else if k == "F" then go rest (.banFilter nb :: acc)
+        else if k == "C" then go rest (.create :: acc)
+        else none
+    | _, _ => none
+  match go ts [] with
+  | none => "bad-request"
+  | some ops =>
+    let r := banRun (Gen.registeredTags.map (·.1)) (Gen.registeredFilters.map (·.1)) {} ops
+    String.join (r.2.map fun b => if b then "1" else "0")
 
 def envOf : Val → Env
   | .smap _ kvs => kvs
